@@ -177,9 +177,45 @@ fn tamper_every_leaf_with(r: &mut Report, kind: &str, owner: PrivateKey) {
            format!("accepted: {:?}", accepted), control && accepted.is_empty() && n > 40);
 }
 
+/// child-process body of `expiry-whatever-the-local-time-zone` (the zone is read from TZ once per process)
+pub fn expiry_zone_child() {
+    use chrono::{Duration, Utc};
+    let o1 = key(1);
+    let mut bad: Vec<String> = vec![];
+    for secs in [-14 * 3600i64, -11 * 3600, -5 * 3600, -3600, -120, 120, 3600, 5 * 3600, 11 * 3600, 14 * 3600] {
+        for delegated in [false, true] {
+            let t = Utc::now() + Duration::seconds(secs);
+            let d = tmpdir();
+            let ka = key(2);
+            let inner_exp = if delegated { t } else { Utc::now() + Duration::days(30) };
+            let outer_exp = if delegated { Utc::now() + Duration::days(30) } else { t };
+            let mut inner = layout(vec![], vec![], &[], 30); inner.expires = inner_exp;
+            let mut outer = if delegated { layout(vec![step("a", 1, &[&ka], allow_all(), allow_all())], vec![], &[&ka], 30) } else { layout(vec![], vec![], &[], 30) };
+            outer.expires = outer_exp;
+            if delegated { write_link(d.path(), "a", ka.key_id(), &signed_layout(&inner, &[&ka])); }
+            let lay = signed_layout(&outer, &[&o1]);
+            // through the wire as well: the instant is what the document says, in whatever zone the verifier sits
+            let lay: Metablock = serde_json::from_str(&serde_json::to_string(&lay).unwrap()).unwrap();
+            let res = no_panic(|| in_toto_verify(&lay, owner_keys(&[&o1]), d.path().to_str().unwrap(), None).is_ok());
+            if res != Ok(secs > 0) { bad.push(format!("expires {:+}s delegated {}: {:?}", secs, delegated, res)); }
+        }
+    }
+    println!("{}", json!({"bad": bad}));
+}
+
 pub fn run_c06(r: &mut Report) {
     use in_toto::models::LayoutMetadata;
     let o1 = key(1);
+    // the verifier's local time zone has no say: the same grid in child processes started under zones east and west of UTC
+    for tz in ["UTC0", "JST-9", "EST5", "<+14>-14", "<-12>12", "NPT-5:45", "Asia/Tokyo", "America/Los_Angeles"] {
+        let out = std::process::Command::new(std::env::current_exe().unwrap()).arg("_EXPIRY_ZONES").env("TZ", tz).output();
+        let (ok, obs) = match out {
+            Ok(o) => { let txt = String::from_utf8_lossy(&o.stdout).to_string();
+                let v: Option<serde_json::Value> = txt.lines().rev().find_map(|l| serde_json::from_str(l).ok());
+                match v { Some(v) if o.status.success() => (v["bad"].as_array().map(|a| a.is_empty()).unwrap_or(false), v["bad"].to_string()), _ => (false, format!("status {:?}: {}", o.status, txt.chars().take(300).collect::<String>())) } }
+            Err(e) => (false, format!("cannot start child: {}", e)) };
+        r.case("expiry-whatever-the-local-time-zone", json!({"TZ": tz, "offsets_hours": [-14, -11, -5, -1, 0, 1, 5, 11, 14]}), "expired layouts (root and delegated) rejected, unexpired accepted", obs, ok);
+    }
     for (days, expect) in [(30i64, true), (1, true), (-1, false), (-400, false)] {
         let (lay, d) = simple(&[&o1], days);
         let res = no_panic(|| in_toto_verify(&lay, owner_keys(&[&o1]), d.path().to_str().unwrap(), None));
@@ -411,6 +447,28 @@ pub fn run_c04(r: &mut Report) {
         let ok = match &res { Ok(v) => v.is_ok() == c.expect && (v.is_err() || v.as_ref().unwrap() == &c.mb.metadata), Err(_) => false };
         r.case(c.id, json!({"threshold": c.t, "keys": c.keys.len(), "signatures": c.mb.signatures.len()}),
                if c.expect { "Ok(metadata)" } else { "Err" }, format!("{:?}", res.map(|v| v.map(|_| "Ok").map_err(|e| e.to_string()))), ok);
+    }
+    // every arrangement of repeated signatures: all lists of length 0..=5 over {A, B authorised, C unauthorised}, thresholds 0..=3,
+    // both orders of the authorised keys: Ok exactly when the number of DISTINCT authorised signers reaches a threshold >= 1
+    {
+        let base = sign(&[&k1, &k2, &k3]);
+        let sig_of = |k: &PrivateKey| base.signatures.iter().find(|s| s.key_id() == k.key_id()).unwrap().clone();
+        let sigs = [sig_of(&k1), sig_of(&k2), sig_of(&k3)];
+        let mut bad: Vec<String> = vec![]; let mut n = 0;
+        for len in 0..=5usize { for code in 0..3usize.pow(len as u32) {
+            let mut c = code; let mut idx = vec![];
+            for _ in 0..len { idx.push(c % 3); c /= 3; }
+            let mut m = base.clone();
+            m.signatures = idx.iter().map(|i| sigs[*i].clone()).collect();
+            let distinct = [0usize, 1].iter().filter(|a| idx.contains(a)).count() as u32;
+            for t in 0u32..=3 { for keys in [pubs(&[&k1, &k2]), pubs(&[&k2, &k1])] {
+                n += 1;
+                let res = no_panic(|| m.verify(t, keys.iter()).is_ok());
+                let expect = t >= 1 && distinct >= t;
+                if res != Ok(expect) && bad.len() < 6 { bad.push(format!("signers {:?} (0,1 authorised; 2 not) threshold {}: {:?}, expected {}", idx, t, res, expect)); }
+            } }
+        } }
+        r.case("every-arrangement-of-repeated-signatures", json!({"inputs": n}), "Ok exactly when distinct authorised signers >= threshold >= 1", format!("{:?}", bad), bad.is_empty());
     }
     // entries labelled with a near-variant of an authorised key's id (other case, blanks, one digit changed) are entries of an
     // unknown key: they neither add to the count nor displace the genuine entry, in either order
